@@ -126,6 +126,7 @@ def run_one(ctl: explorer.Ctl, cfg: Dict[str, Any]) -> Dict[str, Any]:
     raise_at = cfg.get("cb_raise_at")
     use_token = cfg.get("token", True)
     use_cb = bool(prog) or cfg.get("cb", False)
+    METHOD = cfg.get("method", "tools/call")
     cb_takes = cfg.get("cb_takes")
     wcl = cfg.get("write_closes")   # None | [who, time]: who closes the outgoing stream ("owner" = our end, "peer" = the reader), when (-1: before the call)
     loop = new_loop(horizon=4 * T + 5)
@@ -168,7 +169,7 @@ def run_one(ctl: explorer.Ctl, cfg: Dict[str, Any]) -> Dict[str, Any]:
                     while True:
                         m = st["recv_w"].receive_nowait()
                         st.setdefault("early", []).append(m)
-                        if getattr(m, "method", None) == "tools/call" and "wire_req" not in st:
+                        if getattr(m, "method", None) == METHOD and "wire_req" not in st:
                             st["wire_req"] = m.model_dump(exclude_none=True)
                 except Exception:
                     pass
@@ -217,6 +218,8 @@ def run_one(ctl: explorer.Ctl, cfg: Dict[str, Any]) -> Dict[str, Any]:
                 else:
                     loop.env_call_at(t0 + wcl[1], -5, close_write)
             resp = {"jsonrpc": "2.0", "id": RID, "result": {"ok": True}}
+            if cfg.get("error_code") is not None:
+                resp = {"jsonrpc": "2.0", "id": RID, "error": {"code": cfg["error_code"], "message": "the server refuses"}}
 
             def sched_cancel():
                 if c == "pre":
@@ -269,14 +272,14 @@ def run_one(ctl: explorer.Ctl, cfg: Dict[str, Any]) -> Dict[str, Any]:
                     call_params["_meta"] = {"progressToken": "stale-from-an-earlier-call", "trace": "x"}
                 elif pm == "other-meta":
                     call_params["_meta"] = {"trace": "x"}
-                val = await send_message(recv_r, send_w, "tools/call", call_params, **kw)
+                val = await send_message(recv_r, send_w, METHOD, call_params, **kw)
                 out = ("result", sched.jsonable(val))
             except CancelledError as e:
                 out = ("cancelled", str(e))
             except TimeoutError:
                 out = ("timeout", None)
             except (RetryableError, NonRetryableError) as e:
-                out = ("error", str(e))
+                out = ("error", [type(e).__name__, getattr(e, "code", None)])
             except BaseException as e:  # noqa: BLE001
                 out = ("other-exc", repr(e)[:200])
             return out, loop.time() - t0
@@ -301,6 +304,14 @@ def run_one(ctl: explorer.Ctl, cfg: Dict[str, Any]) -> Dict[str, Any]:
         return obs
     (okind, oval), done = val
     obs.update({"outcome": okind, "done": round(done, 7)})
+    if cfg.get("error_code") is not None and okind == "error":
+        # an error ANSWER ends the request like any answer (same timing rules); it must surface as the classified error
+        from chuk_mcp.protocol.types.errors import is_retryable_error
+        want = ["RetryableError" if is_retryable_error(cfg["error_code"]) else "NonRetryableError", cfg["error_code"]]
+        if oval != want:
+            viol.append({"sig": {"class": "error-answer-not-the-classified-error"},
+                         "msg": f"cfg={cfg}: the answer was error {cfg['error_code']}, the call raised {oval}"})
+        okind = "result"
     wd = []
     for m in writes:
         try:
@@ -357,7 +368,7 @@ def run_one(ctl: explorer.Ctl, cfg: Dict[str, Any]) -> Dict[str, Any]:
         bad("late-completion", f"completed at {done}, deadline {T}")
 
     cancelled_notes = [w for w in wd if isinstance(w, dict) and w.get("method") == "notifications/cancelled"]
-    requests = [w for w in wd if isinstance(w, dict) and w.get("method") == "tools/call"]
+    requests = [w for w in wd if isinstance(w, dict) and w.get("method") == METHOD]
 
     congested = cfg.get("write_buffer") is not None
     if congested:
@@ -750,6 +761,24 @@ def configs_for(tier: str):
                                       "write_closes": [who, tw]})
             g.append({"T": T, "traffic": "none", "cancel": "pre", "response": None, "write_closes": [who, -1]})
     parts["write-stream-closed-then-cancelled"] = g
+    # (8) the request's method (every request of the protocol, and invented ones) and the kind of answer (result or error of
+    # either class) do not change what the token, the deadline and the progress stream do
+    g = []
+    methods = ["initialize", "ping", "tools/list", "tools/call", "resources/read", "resources/subscribe", "prompts/get",
+               "completion/complete", "logging/setLevel", "sampling/createMessage", "roots/list", "elicitation/create",
+               "x/invented", ""]
+    for mth in methods:
+        if mth == "":
+            continue  # an empty method is not a request the library builds
+        for c in (None, "pre", [0.3, 0], [0.7, 0]):
+            for r in (None, [0.5, 0]):
+                for code in (None, -32601, -32603):
+                    if code is not None and r is None:
+                        continue
+                    for tok in ((True,) if c is not None else (True, False)):
+                        g.append({"T": 1.0, "traffic": "none", "cancel": c, "response": r, "method": mth, "error_code": code,
+                                  "token": tok, "progress": [["M", 0.2], ["M0", 0.4]], "cb": True})
+    parts["every-request-method-x-answer-kind"] = g
     return parts
 
 
